@@ -3,7 +3,7 @@
       streams; this theorem says it never objects to the model.) *)
 From Coq Require Import Lia ZArith Permutation.
 From OCI Require Import Machine Checkers.
-From OCI.proofs Require Import Base Trace ArithOk InvKnown ChkKnown IterBase IterProt InvIterA Progress IterFair.
+From OCI.proofs Require Import Base Trace ArithOk InvKnown ChkKnown IterBase IterProt InvIterA InvIterH Progress IterFair.
 Open Scope N_scope.
 
 (** the scan as a left fold with an accumulated verdict *)
@@ -60,10 +60,19 @@ Hypothesis Hk : e_kind e = KIter.
 Variable L : list tid.
 Hypothesis NDL : NoDup L.
 
-(** how the state of the scan relates to the state of the machine *)
+(** the thread has found its ticket at the yielded counter and has neither stored nor published since *)
+Definition at_src (p : pc) : bool := match p with PChkT _ _ | PSrc _ _ _ => true | _ => false end.
+
+Lemma at_src_crit p : at_src p = true -> in_crit p = true.
+Proof. destruct p; try discriminate; reflexivity. Qed.
+
+(** how the state of the scan relates to the state of the machine.  A thread that the scan counts as
+    inside is inside its critical section, or it has left it at the second look at the completed flag
+    (which performs no store, so the scan keeps it until its next call): in that case the ticket at the
+    yielded counter has been given up for good ([dead]) and nobody will ever enter again *)
 Record R (c : cfg) (st : cs_state) : Prop := {
-  r_src  : forall t q b g, t_pc (c_pool c t) = PSrc q b g -> tid_mem t (cs_in st) = true;
-  r_in   : forall u, tid_mem u (cs_in st) = true -> in_crit (t_pc (c_pool c u)) = true;
+  r_src  : forall t, at_src (t_pc (c_pool c t)) = true -> tid_mem t (cs_in st) = true;
+  r_in   : forall u, tid_mem u (cs_in st) = true -> in_crit (t_pc (c_pool c u)) = true \/ dead c;
   r_tk   : forall t b n, ticket (t_pc (c_pool c t)) = Some (b, n) -> assoc_get t (cs_ticket st) = Some b
 }.
 
@@ -86,96 +95,102 @@ Qed.
 (** a label the scan does not look at, by a thread whose ticket and side of the critical section stay *)
 Lemma r_same c t sh' ts' l evs st :
   R c st ->
+  (dead c -> dead (commit c t sh' ts' l evs)) ->
   ticket (t_pc ts') = ticket (t_pc (c_pool c t)) \/ ticket (t_pc ts') = None ->
-  (in_crit (t_pc (c_pool c t)) = true -> in_crit (t_pc ts') = true) ->
-  (forall q b g, t_pc ts' = PSrc q b g -> exists q' b' g', t_pc (c_pool c t) = PSrc q' b' g') ->
+  (in_crit (t_pc (c_pool c t)) = true -> in_crit (t_pc ts') = true \/ dead (commit c t sh' ts' l evs)) ->
+  (at_src (t_pc ts') = true -> at_src (t_pc (c_pool c t)) = true) ->
   R (commit c t sh' ts' l evs) st.
 Proof.
-  intros I Ht Hc Hs. split; cbn [commit c_pool].
-  - intros u q b g. destruct (Nat.eq_dec u t) as [->|Hn]; [rewrite upd_same|rewrite upd_other by assumption; apply (r_src c st I)].
-    intros E. destruct (Hs q b g E) as (q' & b' & g' & E'). apply (r_src c st I t q' b' g' E').
-  - intros u Hu. destruct (Nat.eq_dec u t) as [->|Hn]; [rewrite upd_same|rewrite upd_other by assumption; apply (r_in c st I); exact Hu].
-    apply Hc. apply (r_in c st I). exact Hu.
-  - intros u b n. destruct (Nat.eq_dec u t) as [->|Hn]; [rewrite upd_same|rewrite upd_other by assumption; apply (r_tk c st I)].
+  intros I Hd Ht Hc Hs. split.
+  - intros u. cbn [commit c_pool]. destruct (Nat.eq_dec u t) as [->|Hn]; [rewrite upd_same|rewrite upd_other by assumption; apply (r_src c st I)].
+    intros E. apply (r_src c st I t (Hs E)).
+  - intros u Hu. destruct (r_in c st I u Hu) as [H|H]; [|right; apply Hd; exact H].
+    cbn [commit c_pool]. destruct (Nat.eq_dec u t) as [->|Hn]; [rewrite upd_same; apply Hc; exact H|rewrite upd_other by assumption; left; exact H].
+  - intros u b n. cbn [commit c_pool]. destruct (Nat.eq_dec u t) as [->|Hn]; [rewrite upd_same|rewrite upd_other by assumption; apply (r_tk c st I)].
     intros E. destruct Ht as [Ht|Ht]; [rewrite Ht in E; apply (r_tk c st I t b n E)|rewrite Ht in E; discriminate].
 Qed.
-
 
 (** the general frame lemma: thread [t] moves to [ts'], the scan to [st'] *)
 Lemma r_upd c t sh' ts' l evs st st' :
   R c st ->
+  (dead c -> dead (commit c t sh' ts' l evs)) ->
   (forall u, u <> t -> tid_mem u (cs_in st') = tid_mem u (cs_in st) /\ assoc_get u (cs_ticket st') = assoc_get u (cs_ticket st)) ->
-  (forall q b g, t_pc ts' = PSrc q b g -> tid_mem t (cs_in st') = true) ->
-  (tid_mem t (cs_in st') = true -> in_crit (t_pc ts') = true) ->
+  (at_src (t_pc ts') = true -> tid_mem t (cs_in st') = true) ->
+  (tid_mem t (cs_in st') = true -> in_crit (t_pc ts') = true \/ dead (commit c t sh' ts' l evs)) ->
   (forall b n, ticket (t_pc ts') = Some (b, n) -> assoc_get t (cs_ticket st') = Some b) ->
   R (commit c t sh' ts' l evs) st'.
 Proof.
-  intros I Ho H1 H2 H3. split; cbn [commit c_pool].
-  - intros u q b g. destruct (Nat.eq_dec u t) as [->|Hn]; [rewrite upd_same; apply H1|rewrite upd_other by assumption].
-    intros E. rewrite (proj1 (Ho u Hn)). apply (r_src c st I u q b g E).
-  - intros u. destruct (Nat.eq_dec u t) as [->|Hn]; [rewrite upd_same; exact H2|rewrite upd_other by assumption].
-    rewrite (proj1 (Ho u Hn)). apply (r_in c st I).
-  - intros u b n. destruct (Nat.eq_dec u t) as [->|Hn]; [rewrite upd_same; apply H3|rewrite upd_other by assumption].
+  intros I Hd Ho H1 H2 H3. split.
+  - intros u. cbn [commit c_pool]. destruct (Nat.eq_dec u t) as [->|Hn]; [rewrite upd_same; apply H1|rewrite upd_other by assumption].
+    intros E. rewrite (proj1 (Ho u Hn)). apply (r_src c st I u E).
+  - intros u. destruct (Nat.eq_dec u t) as [->|Hn]; [cbn [commit c_pool]; rewrite upd_same; exact H2|].
+    rewrite (proj1 (Ho u Hn)). intros Hu. destruct (r_in c st I u Hu) as [H|H]; [|right; apply Hd; exact H].
+    left. cbn [commit c_pool]. rewrite upd_other by assumption. exact H.
+  - intros u b n. cbn [commit c_pool]. destruct (Nat.eq_dec u t) as [->|Hn]; [rewrite upd_same; apply H3|rewrite upd_other by assumption].
     rewrite (proj2 (Ho u Hn)). apply (r_tk c st I).
 Qed.
 
 (** the thread leaves the critical section, or was never in it: the scan drops it from its set *)
 Lemma r_leave c t sh' ts' l evs st :
   R c st ->
-  (forall q b g, t_pc ts' <> PSrc q b g) ->
+  (dead c -> dead (commit c t sh' ts' l evs)) ->
+  at_src (t_pc ts') = false ->
   ticket (t_pc ts') = ticket (t_pc (c_pool c t)) \/ ticket (t_pc ts') = None ->
   R (commit c t sh' ts' l evs) {| cs_ticket := cs_ticket st; cs_in := tid_del t (cs_in st) |}.
 Proof.
-  intros I Hs Ht. apply r_upd with st; try assumption; cbn [cs_in cs_ticket].
+  intros I Hd Hs Ht. apply r_upd with st; try assumption; cbn [cs_in cs_ticket].
   - intros u Hn. rewrite tid_mem_del. destruct (Nat.eqb_spec u t); [contradiction|]. rewrite andb_true_r. auto.
-  - intros q b g E. exfalso. apply (Hs q b g E).
+  - rewrite Hs. discriminate.
   - rewrite tid_mem_del, Nat.eqb_refl, andb_false_r. discriminate.
   - intros b n E. destruct Ht as [Ht|Ht]; [rewrite Ht in E; apply (r_tk c st I t b n E)|rewrite Ht in E; discriminate].
 Qed.
 
 Lemma finish_scan c t sh l q pr :
   exists ts' evs, finish e c t sh (c_pool c t) l q pr = commit c t sh ts' l evs /\
-                  ticket (t_pc ts') = None /\ in_crit (t_pc ts') = false /\ (forall q0 b g, t_pc ts' <> PSrc q0 b g).
+                  ticket (t_pc ts') = None /\ in_crit (t_pc ts') = false /\ at_src (t_pc ts') = false.
 Proof.
   unfold finish. destruct (deliver e (c_pool c t) q pr) as [ts' o] eqn:E. exists ts', (ret_ev t o). split; [reflexivity|].
-  destruct (deliver_w _ _ _ _ _ _ E) as (_ & [->|(-> & _)]); repeat split; discriminate.
+  destruct (deliver_w _ _ _ _ _ _ E) as (_ & [->|(-> & _)]); repeat split; reflexivity.
 Qed.
 
-Lemma s_step c t : IInvA e L c -> S c -> In t L -> S (step e c t).
+(** every goal below has the form [(dead c -> dead c') -> S c'] where [c'] is the configuration after
+    the step: [dead_step] is carried along while [step e c t] is rewritten into its [commit] form *)
+Lemma s_step c t : IInvA e L c -> S c -> In t L -> istep_nowrap c t -> S (step e c t).
 Proof.
-  intros A I Hin. pose proof (a_prot e L c A) as P. pose proof (s_r c I) as Rc.
-  destruct (t_pc (c_pool c t)) as [|q|q b|q b|q b got|q b got|q b got|q b got| |hm|hm] eqn:Hpc.
+  intros A I Hin Hw. pose proof (a_prot e L c A) as P. pose proof (s_r c I) as Rc.
+  pose proof (dead_step e Hk L c t A Hw) as Hd0. revert Hd0. clear Hw.
+  destruct (t_pc (c_pool c t)) as [|q|q b|q b|q b|q b got|q b got|q b got|q b got| |hm|hm] eqn:Hpc.
   - (* call point *)
     destruct (t_todo (c_pool c t)) as [|o rest] eqn:Htodo.
-    + rewrite (istep_idle_nil e c t) by assumption. exact I.
+    + rewrite (istep_idle_nil e c t) by assumption. intros _. exact I.
     + rewrite (istep_idle_call e c t o rest) by assumption. unfold call.
       destruct (a_wf e L c A t) as (_ & Hops & Hbuf). rewrite Htodo in Hops. inversion Hops as [|? ? Hwo _]; subst.
       assert (Hg : forall ts' evs, ticket (t_pc ts') = None -> in_crit (t_pc ts') = false ->
+                (dead c -> dead (commit c t (c_sh c) ts' (LCall t) evs)) ->
                 S (commit c t (c_sh c) ts' (LCall t) evs)).
-      { intros ts' evs Tn Cn. apply s_commit; [exact I|reflexivity|]. cbn [cs_step fst].
+      { intros ts' evs Tn Cn Hd. apply s_commit; [exact I|reflexivity|]. cbn [cs_step fst].
         apply r_upd with (st_of c); try assumption; cbn [cs_in cs_ticket].
         - intros u Hn. rewrite tid_mem_del. destruct (Nat.eqb_spec u t); [contradiction|]. rewrite andb_true_r.
           rewrite assoc_get_filter by assumption. auto.
-        - intros q b g E. rewrite E in Cn. discriminate.
+        - intros E. rewrite (at_src_crit _ E) in Cn. discriminate.
         - rewrite tid_mem_del, Nat.eqb_refl, andb_false_r. discriminate.
         - intros b n E. rewrite Tn in E. discriminate. }
       destruct (call_res e (c_pool c t) o) as [p|bf r d] eqn:E.
-      * destruct (call_go_iter e Hk _ _ _ E Hwo Hbuf) as (Tp & Cp & _). apply Hg; assumption.
-      * apply Hg; reflexivity.
+      * destruct (call_go_iter e Hk _ _ _ E Hwo Hbuf) as (Tp & Cp & _). intros Hd. apply Hg; assumption.
+      * intros Hd. apply Hg; [reflexivity|reflexivity|exact Hd].
   - (* reservation *)
-    rewrite (istep_res e Hk c t q Hpc). apply s_commit; [exact I|reflexivity|]. cbn [cs_step fst].
+    rewrite (istep_res e Hk c t q Hpc). intros Hd. apply s_commit; [exact I|reflexivity|]. cbn [cs_step fst].
     apply r_upd with (st_of c); try assumption; cbn [cs_in cs_ticket set_pc t_pc].
     + intros u Hn. rewrite assoc_get_set. destruct (Nat.eqb_spec u t); [contradiction|]. auto.
     + discriminate.
-    + intros Hm. pose proof (r_in c _ Rc t Hm) as Hc. rewrite Hpc in Hc. discriminate.
+    + intros Hm. destruct (r_in c _ Rc t Hm) as [Hc|Hc]; [rewrite Hpc in Hc; discriminate|right; apply Hd; exact Hc].
     + intros b n E. cbn [ticket] in E. injection E as <- _. rewrite assoc_get_set, Nat.eqb_refl. reflexivity.
   - (* completed flag *)
     rewrite (istep_chkf e c t q b Hpc). destruct (s_f (c_sh c)).
     + destruct (finish_scan c t (c_sh c) (LAtom t SF ALoad 0 (bN true) (o_chkf q)) q (Ok PREnd)) as (ts' & evs & -> & Tn & Cn & Sn).
-      apply s_commit; [exact I|reflexivity|]. cbn [cs_step fst].
-      apply r_same; try assumption; [right; exact Tn|rewrite Hpc; discriminate|].
-      intros q0 b0 g0 E. exfalso. apply (Sn q0 b0 g0 E).
-    + apply s_commit; [exact I|reflexivity|]. cbn [cs_step fst].
+      intros Hd. apply s_commit; [exact I|reflexivity|]. cbn [cs_step fst].
+      apply r_same; try assumption; [right; exact Tn|rewrite Hpc; discriminate|rewrite Sn; discriminate].
+    + intros Hd. apply s_commit; [exact I|reflexivity|]. cbn [cs_step fst].
       apply r_same; try assumption; cbn [set_pc t_pc]; rewrite Hpc; [left; reflexivity|discriminate|discriminate].
   - (* yielded counter *)
     assert (Tt : ticket (pcs_of c t) = Some (b, pub_incr q)) by (unfold pcs_of; rewrite Hpc; reflexivity).
@@ -184,81 +199,99 @@ Proof.
     + (* enters *)
       assert (Hempty : cs_in (st_of c) = []).
       { apply no_member_nil. intros u. destruct (tid_mem u (cs_in (st_of c))) eqn:Hm; [exfalso|reflexivity].
-        pose proof (r_in c _ Rc u Hm) as Cu.
-        destruct (Nat.eq_dec u t) as [->|Hne]; [rewrite Hpc in Cu; discriminate|].
-        assert (exists b' n', ticket (pcs_of c u) = Some (b', n')) as (b' & n' & Tu)
-          by (unfold pcs_of; destruct (t_pc (c_pool c u)); cbn in *; try discriminate; eauto).
-        pose proof (p_crit _ _ _ _ _ P u b' n' Cu Tu). pose proof (p_tk _ _ _ _ _ P u b' n' Tu). pose proof (p_tk _ _ _ _ _ P t _ _ Tt).
-        pose proof (p_disj _ _ _ _ _ P u t b' n' _ _ Hne Tu Tt). lia. }
-      apply s_commit; [exact I| |]; cbn [cs_step]; rewrite Ha; subst b; rewrite N.eqb_refl; cbn [fst snd].
+        destruct (r_in c _ Rc u Hm) as [Cu|[_ D2]].
+        - destruct (Nat.eq_dec u t) as [->|Hne]; [rewrite Hpc in Cu; discriminate|].
+          assert (exists b' n', ticket (pcs_of c u) = Some (b', n')) as (b' & n' & Tu)
+            by (unfold pcs_of; destruct (t_pc (c_pool c u)); cbn in *; try discriminate; eauto).
+          pose proof (p_crit _ _ _ _ _ P u b' n' Cu Tu). pose proof (p_tk _ _ _ _ _ P u b' n' Tu). pose proof (p_tk _ _ _ _ _ P t _ _ Tt).
+          pose proof (p_disj _ _ _ _ _ P u t b' n' _ _ Hne Tu Tt). lia.
+        - apply (D2 t b (pub_incr q)); [rewrite Hpc; reflexivity|exact Eb]. }
+      intros Hd. apply s_commit; [exact I| |]; cbn [cs_step]; rewrite Ha; subst b; rewrite N.eqb_refl; cbn [fst snd].
       * rewrite Hempty. reflexivity.
       * apply r_upd with (st_of c); try assumption; cbn [cs_in cs_ticket set_pc t_pc].
         -- intros u Hn. unfold tid_mem. cbn [existsb]. destruct (Nat.eqb_spec u t); [contradiction|]. auto.
-        -- intros _ _ _ _. unfold tid_mem. cbn [existsb]. rewrite Nat.eqb_refl. reflexivity.
-        -- reflexivity.
+        -- intros _. unfold tid_mem. cbn [existsb]. rewrite Nat.eqb_refl. reflexivity.
+        -- intros _. left. reflexivity.
         -- intros b n E. cbn [ticket] in E. injection E as <- _. exact Ha.
     + assert (Hst : cs_step (st_of c) (LAtom t SY ALoad 0 (s_y (c_sh c)) (o_ldy q)) = (st_of c, true)).
       { cbn [cs_step]. rewrite Ha. destruct (N.eqb_spec b (s_y (c_sh c))); [contradiction|reflexivity]. }
       destruct (b <? s_y (c_sh c)).
       * destruct (finish_scan c t (c_sh c) (LAtom t SY ALoad 0 (s_y (c_sh c)) (o_ldy q)) q (Ok PREnd)) as (ts' & evs & -> & Tn & Cn & Sn).
-        apply s_commit; [exact I|rewrite Hst; reflexivity|]. rewrite Hst. cbn [fst].
-        apply r_same; try assumption; [right; exact Tn|rewrite Hpc; discriminate|].
-        intros q0 b0 g0 E. exfalso. apply (Sn q0 b0 g0 E).
-      * apply s_commit; [exact I|rewrite Hst; reflexivity|]. rewrite Hst. cbn [fst].
+        intros Hd. apply s_commit; [exact I|rewrite Hst; reflexivity|]. rewrite Hst. cbn [fst].
+        apply r_same; try assumption; [right; exact Tn|rewrite Hpc; discriminate|rewrite Sn; discriminate].
+      * intros Hd. apply s_commit; [exact I|rewrite Hst; reflexivity|]. rewrite Hst. cbn [fst].
         apply r_same; try assumption; cbn [set_pc t_pc]; rewrite Hpc; [left; reflexivity|discriminate|discriminate].
+  - (* its turn: the completed flag once more.  When the flag is up the thread leaves without a store or
+       an add: the scan keeps it inside until its next call, and nobody enters any more *)
+    assert (Ct : in_crit (t_pc (c_pool c t)) = true) by (rewrite Hpc; reflexivity).
+    rewrite (istep_chkt e c t q b Hpc). destruct (s_f (c_sh c)).
+    + destruct (finish_scan c t (c_sh c) (LAtom t SF ALoad 0 (bN true) (o_chkt q)) q (Ok PREnd)) as (ts' & evs & -> & Tn & Cn & Sn).
+      intros _.
+      assert (Hdead : dead (commit c t (c_sh c) ts' (LAtom t SF ALoad 0 (bN true) (o_chkt q)) evs))
+        by (eapply dead_abandon; try eassumption; reflexivity).
+      apply s_commit; [exact I|reflexivity|]. cbn [cs_step fst].
+      apply r_same; try assumption; [intros _; exact Hdead|right; exact Tn|intros _; right; exact Hdead|rewrite Sn; discriminate].
+    + intros Hd. apply s_commit; [exact I|reflexivity|]. cbn [cs_step fst].
+      apply r_same; try assumption; cbn [set_pc t_pc]; rewrite Hpc; [left; reflexivity|intros _; left; reflexivity|intros _; reflexivity].
   - (* a use of the wrapped iterator *)
-    assert (Hm : tid_mem t (cs_in (st_of c)) = true) by (apply (r_src c _ Rc t q b got Hpc)).
+    assert (Hm : tid_mem t (cs_in (st_of c)) = true) by (apply (r_src c _ Rc t); rewrite Hpc; reflexivity).
     assert (Hg : forall sh' p' l, (l = LSrcPanic t \/ exists r, l = LSrc t r) -> ticket p' = Some (b, pub_incr q) -> in_crit p' = true ->
+               (dead c -> dead (commit c t sh' (set_pc (c_pool c t) p') l [])) ->
                S (commit c t sh' (set_pc (c_pool c t) p') l [])).
-    { intros sh' p' l Hl Tp Cp. assert (Hst : cs_step (st_of c) l = (st_of c, true)) by (destruct Hl as [->|(r & ->)]; cbn [cs_step]; rewrite Hm; reflexivity).
+    { intros sh' p' l Hl Tp Cp Hd. assert (Hst : cs_step (st_of c) l = (st_of c, true)) by (destruct Hl as [->|(r & ->)]; cbn [cs_step]; rewrite Hm; reflexivity).
       apply s_commit; [exact I|rewrite Hst; reflexivity|]. rewrite Hst. cbn [fst].
-      apply r_same; try assumption; cbn [set_pc t_pc]; rewrite Hpc; [left; exact Tp|intros _; exact Cp|eauto]. }
+      apply r_same; try assumption; cbn [set_pc t_pc]; rewrite Hpc; [left; exact Tp|intros _; left; exact Cp|intros _; reflexivity]. }
     unfold step. rewrite Hpc.
-    destruct (crashes_now e (c_sh c)); [apply Hg; [left; reflexivity|reflexivity|reflexivity]|].
+    destruct (crashes_now e (c_sh c)); [intros Hd; apply Hg; [left; reflexivity|reflexivity|reflexivity|exact Hd]|].
     destruct (q_mode q); destruct (src_next e (c_sh c)) as [xv|].
-    all: try (apply Hg; [right; eauto|reflexivity|reflexivity]).
-    all: try (destruct (N.of_nat (length (xv :: got)) =? q_n q); (apply Hg; [right; eauto|reflexivity|reflexivity])).
+    all: try (intros Hd; apply Hg; [right; eauto|reflexivity|reflexivity|exact Hd]).
+    all: try (destruct (N.of_nat (length (xv :: got)) =? q_n q); intros Hd; (apply Hg; [right; eauto|reflexivity|reflexivity|exact Hd])).
   - (* raising the flag at the end of the source *)
     rewrite (istep_setf e c t q b got Hpc).
-    assert (Hg : forall ts' evs, (forall q0 b0 g0, t_pc ts' <> PSrc q0 b0 g0) ->
+    assert (Hg : forall ts' evs, at_src (t_pc ts') = false ->
                (ticket (t_pc ts') = ticket (t_pc (c_pool c t)) \/ ticket (t_pc ts') = None) ->
+               (dead c -> dead (commit c t (with_f (c_sh c) true) ts' (LAtom t SF AStore 1 0 (o_setf q)) evs)) ->
                S (commit c t (with_f (c_sh c) true) ts' (LAtom t SF AStore 1 0 (o_setf q)) evs)).
-    { intros ts' evs Sn Tn. apply s_commit; [exact I|reflexivity|]. cbn [cs_step fst]. apply r_leave; assumption. }
+    { intros ts' evs Sn Tn Hd. apply s_commit; [exact I|reflexivity|]. cbn [cs_step fst]. apply r_leave; assumption. }
     destruct (q_mode q).
     + destruct (finish_scan c t (with_f (c_sh c) true) (LAtom t SF AStore 1 0 (o_setf q)) q (Ok PREnd)) as (ts' & evs & -> & Tn & Cn & Sn).
-      apply Hg; [exact Sn|right; exact Tn].
-    + apply Hg; cbn [set_pc t_pc]; [discriminate|left; rewrite Hpc; reflexivity].
-    + apply Hg; cbn [set_pc t_pc]; [discriminate|left; rewrite Hpc; reflexivity].
+      intros Hd. apply Hg; [exact Sn|right; exact Tn|exact Hd].
+    + intros Hd. apply Hg; cbn [set_pc t_pc]; [reflexivity|left; rewrite Hpc; reflexivity|exact Hd].
+    + intros Hd. apply Hg; cbn [set_pc t_pc]; [reflexivity|left; rewrite Hpc; reflexivity|exact Hd].
   - (* publishing *)
     unfold step. rewrite Hpc.
-    assert (Hf : forall sh pr, S (finish e c t sh (c_pool c t) (LAtom t SY AAdd (pub_incr q) (s_y (c_sh c)) (o_pub q)) q pr)).
+    assert (Hf : forall sh pr, (dead c -> dead (finish e c t sh (c_pool c t) (LAtom t SY AAdd (pub_incr q) (s_y (c_sh c)) (o_pub q)) q pr)) ->
+                 S (finish e c t sh (c_pool c t) (LAtom t SY AAdd (pub_incr q) (s_y (c_sh c)) (o_pub q)) q pr)).
     { intros sh pr. destruct (finish_scan c t sh (LAtom t SY AAdd (pub_incr q) (s_y (c_sh c)) (o_pub q)) q pr) as (ts' & evs & -> & Tn & Cn & Sn).
-      apply s_commit; [exact I|reflexivity|]. cbn [cs_step fst]. apply r_leave; [exact Rc|exact Sn|right; exact Tn]. }
+      intros Hd. apply s_commit; [exact I|reflexivity|]. cbn [cs_step fst]. apply r_leave; [exact Rc|exact Hd|exact Sn|right; exact Tn]. }
     destruct (q_mode q); [apply Hf| |].
     + destruct (s_y (c_sh c) =? b); [destruct (rev got)|]; apply Hf.
     + destruct (s_y (c_sh c) =? b); [destruct (rev got)|]; apply Hf.
   - (* unwinding *)
     unfold step. rewrite Hpc.
     assert (Hg : forall ts' evs, t_pc ts' = PIdle ->
+               (dead c -> dead (commit c t (with_f (c_sh c) true) ts' (LAtom t SF AStore 1 0 ord_completed_store_unwind) evs)) ->
                S (commit c t (with_f (c_sh c) true) ts' (LAtom t SF AStore 1 0 ord_completed_store_unwind) evs)).
-    { intros ts' evs Hp'. apply s_commit; [exact I|reflexivity|]. cbn [cs_step fst].
-      apply r_leave; [exact Rc|rewrite Hp'; discriminate|right; rewrite Hp'; reflexivity]. }
-    destruct (q_ctx q); [|apply Hg; reflexivity].
-    destruct (q_mode q); try (apply Hg; reflexivity).
-    rewrite Hk. destruct (t_buf (c_pool c t)) as [bf|]; [|apply Hg; reflexivity].
-    destruct (write_slots (bf_slots bf) (rev got)). apply Hg; reflexivity.
+    { intros ts' evs Hp' Hd. apply s_commit; [exact I|reflexivity|]. cbn [cs_step fst].
+      apply r_leave; [exact Rc|exact Hd|rewrite Hp'; reflexivity|right; rewrite Hp'; reflexivity]. }
+    destruct (q_ctx q); [|intros Hd; apply Hg; [reflexivity|exact Hd]].
+    destruct (q_mode q); try (intros Hd; apply Hg; [reflexivity|exact Hd]).
+    rewrite Hk. destruct (t_buf (c_pool c t)) as [bf|]; [|intros Hd; apply Hg; [reflexivity|exact Hd]].
+    destruct (write_slots (bf_slots bf) (rev got)). intros Hd. apply Hg; [reflexivity|exact Hd].
   - (* skip_to_end *)
-    rewrite (istep_skip e Hk c t Hpc). apply s_commit; [exact I|reflexivity|]. cbn [cs_step fst].
-    apply r_leave; [exact Rc|cbn [set_pc t_pc]; discriminate|right; reflexivity].
+    rewrite (istep_skip e Hk c t Hpc). intros Hd. apply s_commit; [exact I|reflexivity|]. cbn [cs_step fst].
+    apply r_leave; [exact Rc|exact Hd|cbn [set_pc t_pc]; reflexivity|right; reflexivity].
   - (* length queries *)
     rewrite (istep_len e Hk c t hm Hpc).
     assert (Hg : forall p' l evs, cs_step (st_of c) l = (st_of c, true) -> ticket p' = None -> in_crit p' = false ->
+               (dead c -> dead (commit c t (c_sh c) (set_pc (c_pool c t) p') l evs)) ->
                S (commit c t (c_sh c) (set_pc (c_pool c t) p') l evs)).
-    { intros p' l evs Hst Tp Cp. apply s_commit; [exact I|rewrite Hst; reflexivity|]. rewrite Hst. cbn [fst].
+    { intros p' l evs Hst Tp Cp Hd. apply s_commit; [exact I|rewrite Hst; reflexivity|]. rewrite Hst. cbn [fst].
       apply r_same; try assumption; cbn [set_pc t_pc]; [right; exact Tp|rewrite Hpc; discriminate|].
-      intros q0 b0 g0 E. rewrite E in Cp. discriminate. }
-    destruct (s_f (c_sh c)); [apply Hg; reflexivity|]. destruct (e_hint e); apply Hg; reflexivity.
-  - rewrite (istep_len2 e c t hm Hpc). apply s_commit; [exact I|reflexivity|]. cbn [cs_step fst].
+      intros E. rewrite (at_src_crit _ E) in Cp. discriminate. }
+    destruct (s_f (c_sh c)); [intros Hd; apply Hg; [reflexivity|reflexivity|reflexivity|exact Hd]|].
+    destruct (e_hint e); intros Hd; (apply Hg; [reflexivity|reflexivity|reflexivity|exact Hd]).
+  - rewrite (istep_len2 e c t hm Hpc). intros Hd. apply s_commit; [exact I|reflexivity|]. cbn [cs_step fst].
     apply r_same; try assumption; cbn [set_pc t_pc]; [right; reflexivity|rewrite Hpc; discriminate|discriminate].
 Qed.
 
@@ -277,7 +310,7 @@ Proof.
   intros Hp. induction sched as [|t sched IH] using rev_ind; intros Hs Hw; [apply s_init|].
   rewrite exec_snoc in *. apply Forall_app in Hs. destruct Hs as [Hs Ht]. inversion Ht as [|? ? Hin _]; subst.
   pose proof (step_labels_suffix e _ _ Hw) as Hw1.
-  apply s_step; [apply (iA_exec e Hk L NDL); assumption|apply IH; assumption|exact Hin].
+  apply s_step; [apply (iA_exec e Hk L NDL); assumption|apply IH; assumption|exact Hin|apply (istep_labels e Hk _ _ Hw)].
 Qed.
 
 End Scan.
